@@ -1,6 +1,8 @@
 import Model.Common.Proto
 import Model.C11.Combine
 import Model.C11.Roles
+import Model.C11.Wire
+import Model.C11.Signed
 import Generated.Combine
 open Btc Btc.C11
 
@@ -127,6 +129,37 @@ def renderUTx (u : UTx) : String :=
     ",".intercalate (u.vin.map fun x => s!"{renderSlot x.1}:{x.2.1}:{x.2.2}") ++ " vout=" ++
     ",".intercalate (u.vout.map fun x => s!"{x.1}:{hexOf x.2}")
 
+
+/-- `v<i>.<field>.<key>:<n>,…` (or a bare `v`): a table (input, field, key) ↦ number -/
+def parseTable? (s : String) : Option (List ((Nat × String × Nat) × Nat)) :=
+  match s.toList with
+  | _ :: r =>
+    let body := String.ofList r
+    if body.isEmpty then some [] else
+    (body.splitOn ",").foldl (fun acc e => do
+      let m ← acc
+      match e.splitOn ":" with
+      | [k, v] =>
+        match k.splitOn "." with
+        | [i, f, key] => do
+          let i ← i.toNat?
+          let key ← key.toNat?
+          let v ← v.toNat?
+          pure (((i, f, key), v) :: m)
+        | _ => none
+      | _ => none) (some [])
+  | [] => none
+
+def tableGet (t : List ((Nat × String × Nat) × Nat)) (i : Nat) (f : String) (k : Nat) : Option Nat :=
+  (t.find? fun e => e.1 == (i, f, k)).map (·.2)
+
+/-- the wire form of a version 0 psbt: its transaction, then the fields its maps write -/
+def renderWire (p : Psbt) (w : WireV0) : String :=
+  let sect (s : Sec) (i : Nat) : List String :=
+    ((fieldsOf s).filter fun f => !f.v2only).map fun f => s!"{secChar s}{i}.{f.name}={renderSlot (w.slot ⟨s, i, f.name⟩)}"
+  let es := sect .glob 0 ++ (List.range p.nIn).flatMap (sect .inp) ++ (List.range p.nOut).flatMap (sect .out)
+  renderUTx w.tx ++ " maps=" ++ ",".intercalate es
+
 def handle' : List String → String
   | "gen" :: "Combine" :: fn :: args => (Gen.Combine.dispatch fn args).getD "bad-op"
   | "combine" :: toks =>
@@ -151,6 +184,33 @@ def handle' : List String → String
     match parsePsbt? p with
     | some p => renderRes (.ok (toV2 p))
     | none => "bad-op"
+  | ["wirev0", p] =>
+    match parsePsbt? p with
+    | some p => match writeV0 p with
+      | .ok w => renderWire p w
+      | .error e => renderErr e
+    | none => "bad-op"
+  | ["readv0", p] =>
+    match parsePsbt? p with
+    | some p => renderRes (wireRoundTrip p)
+    | none => "bad-op"
+  | ["asigonly", a, b, t] =>
+    match parsePsbt? a, parsePsbt? b, parseTable? t with
+    | some a, some b, some t =>
+      if assertSignaturesOnly (fun _ i f k _ => tableGet t i f k == some 1) a b then "ok" else "err value"
+    | _, _, _ => "bad-op"
+  | ["asigned", ap, p, t] =>
+    match parsePsbt? p, parseTable? t with
+    | some p, some t =>
+      if assertSigned (fun _ i f k _ => tableGet t i f k == some 1) (ap == "1") p then "ok" else "err value"
+    | _, _ => "bad-op"
+  | ["newsigners", a, b, t] =>
+    match parsePsbt? a, parsePsbt? b, parseTable? t with
+    | some a, some b, some t =>
+      match newSigners (fun _ i f k => tableGet t i f k) a b with
+      | .ok s => "ok " ++ ",".intercalate (s.map toString)
+      | .error e => renderErr e
+    | _, _, _ => "bad-op"
   | _ => "bad-op"
 
 /-- a trailing `#…` token is the harness's replay payload: not the model's business -/
